@@ -789,18 +789,42 @@ func ruleC17TerminationByte(c *Ctx) {
 		return
 	}
 	n, bad := 0, ""
-	allInstrs(f, func(_ *ssa.BasicBlock, in ssa.Instruction) {
+	deepInstrs(f, func(g *ssa.Function, _ *TB, _ *ssa.BasicBlock, in ssa.Instruction) {
 		bo, ok := in.(*ssa.BinOp)
 		if !ok || (bo.Op.String() != "!=" && bo.Op.String() != "==") {
-			return
-		}
-		k, isC := constIntOf(bo.Y)
-		if !isC || (k != 39 && k != 34 && k != 96) {
 			return
 		}
 		ph, isPhi := bo.X.(*ssa.Phi)
 		if !isPhi {
 			return
+		}
+		k, isC := constIntOf(bo.Y)
+		if isC && k != 39 && k != 34 && k != 96 {
+			return
+		}
+		if !isC {
+			// a helper that serves several regions ends at the byte that opened the region: a byte of the text read
+			// outside the loop
+			if g == f {
+				return
+			}
+			switch y := bo.Y.(type) {
+			case *ssa.UnOp:
+				if _, isIA := y.X.(*ssa.IndexAddr); !isIA || inCycle(y.Block()) {
+					return
+				}
+			case *ssa.Lookup:
+				if inCycle(y.Block()) {
+					return
+				}
+			case *ssa.Index: // indexing a string
+				if inCycle(y.Block()) {
+					return
+				}
+			default:
+				return
+			}
+			n += 2 // stands for the regions of its callers
 		}
 		// the comparison must steer a loop: its result feeds an If (possibly through the && lowering)
 		n++
@@ -817,6 +841,25 @@ func ruleC17TerminationByte(c *Ctx) {
 					leaf(e, d+1)
 				}
 			case *ssa.Const:
+			case *ssa.Lookup:
+				// a byte of the text (string indexing), at the loop's own position
+				if _, isPhiIdx := x.Index.(*ssa.Phi); !isPhiIdx {
+					bad = "the region-ending test at " + c.P.Pos(bo.Pos()) + " can see the look-ahead byte " + NewTB().Of(x).String()
+				}
+			case *ssa.Index:
+				if _, isPhiIdx := x.Index.(*ssa.Phi); !isPhiIdx {
+					bad = "the region-ending test at " + c.P.Pos(bo.Pos()) + " can see the look-ahead byte " + NewTB().Of(x).String()
+				}
+			case *ssa.UnOp:
+				// the byte itself (no conversion to a rune)
+				ia, ok := x.X.(*ssa.IndexAddr)
+				if !ok {
+					bad = "unrecognised source of the tested byte: " + NewTB().Of(x).String()
+					return
+				}
+				if _, isPhiIdx := ia.Index.(*ssa.Phi); !isPhiIdx {
+					bad = "the region-ending test at " + c.P.Pos(bo.Pos()) + " can see the look-ahead byte " + NewTB().Of(x).String()
+				}
 			case *ssa.Convert:
 				ld, ok := x.X.(*ssa.UnOp)
 				if !ok {
@@ -947,31 +990,62 @@ func ruleC17EscapeSkip(c *Ctx) {
 		c.Unknown("c17.escape-skip", "DoubleQuotesToBackTick", "-", "anchor lost")
 		return
 	}
-	hs := loopHeaders(f)
-	// the single-quote region loop: the header whose loop condition compares a byte with '\''
+	// the single-quote region loop: the header whose loop condition compares a byte with '\'' — in the rewriter itself
+	// (an inner loop), or in a helper the region copies were moved to, where the loop ends at the byte that opened the
+	// region (a value read before the loop) and honours the backslash
 	var region *ssa.BasicBlock
-	for _, h := range hs {
-		isInner := false
-		for _, o := range hs {
-			if o != h && inNaturalLoop(o, h) {
-				isInner = true
+	top := f
+	cands := []*ssa.Function{top}
+	allInstrs(top, func(_ *ssa.BasicBlock, in ssa.Instruction) {
+		if call, ok := in.(*ssa.Call); ok && isUnknownHelper(call.Common().StaticCallee()) {
+			cands = append(cands, call.Common().StaticCallee())
+		}
+	})
+	for _, g := range cands {
+		hs := loopHeaders(g)
+		for _, h := range hs {
+			isInner := false
+			for _, o := range hs {
+				if o != h && inNaturalLoop(o, h) {
+					isInner = true
+				}
 			}
-		}
-		if !isInner {
-			continue
-		}
-		for _, b := range f.Blocks {
-			if b != h && !inNaturalLoop(h, b) {
+			if !isInner && g == top {
 				continue
 			}
-			for _, in := range b.Instrs {
-				if bo, ok := in.(*ssa.BinOp); ok && (bo.Op == token.NEQ || bo.Op == token.EQL) {
-					if k, isK := constIntOf(bo.Y); isK && k == 39 {
-						if _, isPhi := bo.X.(*ssa.Phi); isPhi {
-							region = h
+			endsAtQuote, hasBackslash := false, false
+			for _, b := range g.Blocks {
+				if b != h && !inNaturalLoop(h, b) {
+					continue
+				}
+				for _, in := range b.Instrs {
+					bo, ok := in.(*ssa.BinOp)
+					if !ok || (bo.Op != token.NEQ && bo.Op != token.EQL) {
+						continue
+					}
+					if _, isPhi := bo.X.(*ssa.Phi); !isPhi {
+						if k, isK := constIntOf(bo.Y); isK && k == 92 {
+							hasBackslash = true
+						}
+						continue
+					}
+					if k, isK := constIntOf(bo.Y); isK {
+						if k == 39 {
+							endsAtQuote = true
+						}
+						if k == 92 {
+							hasBackslash = true
+						}
+					} else if g != top {
+						// the opening byte: defined outside the loop
+						if yi, isI := bo.Y.(ssa.Instruction); isI && yi.Block() != nil && !inNaturalLoop(h, yi.Block()) && yi.Block() != h {
+							endsAtQuote = true
 						}
 					}
 				}
+			}
+			if endsAtQuote && (g == top || hasBackslash) && region == nil {
+				region, f = h, g
 			}
 		}
 	}
